@@ -25,6 +25,8 @@ func GoType(sp string, i int) string {
 		return fmt.Sprintf("ext.V%d", i)
 	case SpTime:
 		return "time.Time"
+	case SpIface:
+		return fmt.Sprintf("I%d", i)
 	}
 	return fmt.Sprintf("S%d", i)
 }
@@ -46,6 +48,8 @@ func MkExpr(sp string, i int, h string) string {
 		return fmt.Sprintf("ext.V%d{H: %s}", i, h)
 	case SpTime:
 		return fmt.Sprintf("mkT(%s)", h)
+	case SpIface:
+		return fmt.Sprintf("I%d(S%d{H: %s})", i, i, h)
 	}
 	return fmt.Sprintf("S%d{H: %s}", i, h)
 }
@@ -65,6 +69,8 @@ func HashExpr(sp string, i int, v string) string {
 		return fmt.Sprintf("%s.H", v)
 	case SpTime:
 		return fmt.Sprintf("hT(%s)", v)
+	case SpIface:
+		return fmt.Sprintf("hI(%s)", v)
 	}
 	return fmt.Sprintf("%s.H", v)
 }
@@ -74,9 +80,11 @@ func TypesFile(pkg string) string {
 	var b strings.Builder
 	fmt.Fprintf(&b, "package %s\n\nimport \"time\"\n\n", pkg)
 	b.WriteString("// mkT/hT carry a hash in a time.Time value.\nfunc mkT(h uint64) time.Time { return time.Unix(0, int64(h)) }\n\nfunc hT(t time.Time) uint64 {\n\tif t.IsZero() {\n\t\treturn 0\n\t}\n\treturn uint64(t.UnixNano())\n}\n\n")
+	b.WriteString("// hI reads the hash of a value of any of the interface types I<i>.\nfunc hI(v interface{ Hv() uint64 }) uint64 {\n\tif v == nil {\n\t\treturn 0\n\t}\n\treturn v.Hv()\n}\n\n")
 	b.WriteString("// G is a generic value type.\ntype G[X any] struct {\n\tH uint64\n\tx X\n}\n\n")
 	for i := 0; i < NTypes; i++ {
 		fmt.Fprintf(&b, "type S%d struct{ H uint64 }\ntype B%d uint64\n", i, i)
+		fmt.Fprintf(&b, "type I%d interface{ Hv() uint64 }\nfunc (s S%d) Hv() uint64 { return s.H }\n", i, i)
 		fmt.Fprintf(&b, "type BS%d []B%d\ntype BM%d map[B%d]B%d\n", i, i, i, i, (i+1)%NTypes)
 		fmt.Fprintf(&b, "func hP%d(p *S%d) uint64 {\n\tif p == nil {\n\t\treturn 0\n\t}\n\treturn p.H\n}\n", i, i)
 		fmt.Fprintf(&b, "func hL%d(s []S%d) uint64 {\n\tif len(s) == 0 {\n\t\treturn 0\n\t}\n\treturn s[0].H\n}\n", i, i)
